@@ -141,6 +141,20 @@ def fam_resize_partial(rng):
     return dict(exec=dict(kind="reusable", max_workers=n0, timeout=0.5), users={"u1": u1}, fam="resize_partial")
 
 
+def fam_callback(rng):
+    """done-callbacks that submit the next task (they run in the manager thread), on plain and reusable executors, racing
+    with shutdown / resize"""
+    reusable = rng.random() < 0.6
+    n0 = rng.choice([1, 2, 3])
+    u1 = [["submit", 1, rng.choice(["ok", "raise"])], ["callback_submit", 1, 11], ["submit", 2, "ok"], ["callback_submit", 2, 12]]
+    if reusable:
+        u1 += [["reuse", rng.choice([1, 2, 3, 4]), {}]]
+        if rng.random() < 0.5:
+            u1 += [["submit", 3, "ok"], ["callback_submit", 3, 13], ["reuse", rng.choice([1, 2]), {}]]
+    u1 += [["wait", 1], ["wait", 2], ["settle"], ["wait_all"], ["shutdown", True, False]]
+    return dict(exec=dict(kind="reusable" if reusable else "plain", max_workers=n0, timeout=rng.choice([None, 0.5])), users={"u1": u1}, fam="callback")
+
+
 def fam_map(rng):
     maxw = rng.choice([1, 2, 3])
     tmo = rng.choice([None, 0.5])
@@ -257,7 +271,7 @@ def fam_reusable(rng):
     return dict(exec=dict(kind="reusable", max_workers=m0, timeout=tmo), users=users, fam="reusable")
 
 
-FAMILIES = dict(resize_partial=fam_resize_partial, resize_wait=fam_resize_wait, map=fam_map, reusable=fam_reusable, respawn_crash=fam_respawn_crash, mixed=fam_mixed, crash=fam_crash, kill=fam_kill, timeout=fam_timeout, saturation=fam_saturation, init=fam_init)
+FAMILIES = dict(callback=fam_callback, resize_partial=fam_resize_partial, resize_wait=fam_resize_wait, map=fam_map, reusable=fam_reusable, respawn_crash=fam_respawn_crash, mixed=fam_mixed, crash=fam_crash, kill=fam_kill, timeout=fam_timeout, saturation=fam_saturation, init=fam_init)
 
 
 def policies(rng, fam):
